@@ -339,6 +339,10 @@ func sysCtor() []ctorIn {
 			if isPtrArg(a) {
 				out = append(out, ctorIn{Kind: "ctor", Ctor: c, Arg: a, Nil: true})
 			}
+			if a == "nil" { // the literal X(nil): one case, the value fields play no role
+				out = append(out, ctorIn{Kind: "ctor", Ctor: c, Arg: a})
+				continue
+			}
 			switch c {
 			case "String":
 				for _, s := range strPool {
